@@ -431,6 +431,8 @@ func poolHarnesses() []*schedx.Harness {
 		{Name: "pool/proposer-slashings add+all", New: func() interface{} { return pool.NewProposerSlashingPool(spec) }, Threads: [][]schedx.Op{{ps(1), ps(2)}, {ps(1)}, {allPS}}},
 		{Name: "pool/attester-slashings add+all", New: func() interface{} { return pool.NewAttesterSlashingPool(spec) }, Threads: [][]schedx.Op{{as(1), as(2)}, {as(1)}, {allAS}}},
 		{Name: "pool/sync message+reset", New: newSync, Threads: [][]schedx.Op{{syncMsg(5, 7), syncMsg(6, 7)}, {reset(6)}, {syncMsg(6, 8)}}},
+		// the same slot tick delivered twice (two timers, a restart): Reset with the slot the pool is already at
+		{Name: "pool/sync duplicate slot tick", New: newSync, Threads: [][]schedx.Op{{reset(5), syncMsg(5, 7)}, {reset(6), reset(6)}, {syncContrib(6)}}},
 		{Name: "pool/sync contribution+reset", New: newSync, Threads: [][]schedx.Op{{syncContrib(5), syncContrib(6)}, {reset(6)}, {syncContrib(7)}}},
 	}
 }
